@@ -148,6 +148,41 @@ func VerifH_C06_pair() {
 	checkShape(ll, gd, []LookupIndex{0}, seq, "pair")
 }
 
+// VerifH_C06_pairclass: GPOS 2.2 (class pairs) with symbolic classes of the alphabet glyphs, with and without
+// second records, with ignored glyphs inside the pair.
+func VerifH_C06_pairclass() {
+	meta := verifFlags()
+	meta.LookupType = 2
+	gd := verifGdef()
+	vr := func(tag string) *GposValueRecord {
+		return &GposValueRecord{XPlacement: funit.Int16(verifI16(tag + ".xp")), XAdvance: funit.Int16(verifI16(tag + ".xa"))}
+	}
+	cls := func(tag string, max uint16) uint16 {
+		c := verifU16(tag)
+		verifAssume(c <= max)
+		return c
+	}
+	// class values may equal or exceed the dimensions of the adjustment matrix (2 x 2)
+	st := &Gpos2_2{Cov: coverage.Set{1: true, 2: true},
+		Class1: classdef.Table{1: cls("c1.1", 2), 2: 1},
+		Class2: classdef.Table{2: cls("c2.2", 2), 3: 1},
+		Adjust: [][]*PairAdjust{
+			{{First: vr("a00")}, {First: vr("a01"), Second: vr("b01")}},
+			{{First: vr("a10"), Second: vr("b10")}, {First: vr("a11")}},
+		}}
+	for _, t := range []classdef.Table{st.Class1, st.Class2} {
+		for g, c := range t {
+			if c == 0 {
+				delete(t, g)
+			}
+		}
+	}
+	ll := LookupList{{Meta: meta, Subtables: []Subtable{st}}}
+	seq := verifSeq(2+verifChoose("len", verifParam("maxlen", 2)), 4)
+	checkShape(ll, gd, []LookupIndex{0}, seq, "class pair")
+	_ = cls
+}
+
 // VerifH_C06_context: sequence context format 1 running nested single substitutions at recorded positions.
 func VerifH_C06_context() {
 	meta := verifFlags()
